@@ -538,7 +538,7 @@ func (c *fnCtx) stmt(s ast.Stmt) flow {
 		return c.simple(c.expr(x.X))
 	case *ast.SendStmt:
 		c.escapes(x.Value, "is sent on a channel")
-		return c.simple(seq(c.expr(x.Chan), c.expr(x.Value), c.block(x.Chan, x.Pos())))
+		return c.simple(seq(c.expr(x.Chan), c.expr(x.Value), c.checkSent(x.Chan, x.Value, x.Pos()), c.block(x.Chan, x.Pos())))
 	case *ast.IncDecStmt:
 		return c.simple(c.assign([]ast.Expr{x.X}, nil, token.ADD_ASSIGN, x.Pos()))
 	case *ast.AssignStmt:
@@ -779,7 +779,7 @@ func (c *fnCtx) selectStmt(x *ast.SelectStmt) flow {
 		case nil:
 		case *ast.SendStmt:
 			c.escapes(cm.Value, "is sent on a channel")
-			pre = seq(c.expr(cm.Chan), c.expr(cm.Value), blk(cm.Chan))
+			pre = seq(c.expr(cm.Chan), c.expr(cm.Value), c.checkSent(cm.Chan, cm.Value, cm.Pos()), blk(cm.Chan))
 		case *ast.ExprStmt:
 			pre = recv(cm.X)
 		case *ast.AssignStmt:
